@@ -287,8 +287,13 @@ loop:
 			seq++
 			lg.actions = append(lg.actions, "stop-reading+big+close-while-response-is-written")
 			close(stopReading)
-			send(request(id), 1)
-			send(request(id+"2-big"), 1)
+			// the reader may still be inside a Read when told to stop, so either answer can be observed
+			if send(request(id), 1) {
+				lg.expect = append(lg.expect, id)
+				if send(request(id+"2-big"), 1) {
+					lg.expect = append(lg.expect, id+"2-big")
+				}
+			}
 			for k := 0; k < 2000 && conn.BytesRead.Load() == 0 && w.callsOf(id) == 0; k++ {
 				time.Sleep(250 * time.Microsecond)
 			}
